@@ -28,13 +28,14 @@ type RunOutput struct {
 }
 
 func main() {
-	var ovs, harnesses, cfgs multiFlag
+	var ovs, harnesses, cfgs, redirs multiFlag
 	dir := flag.String("dir", "/repo/go", "module directory")
 	pkg := flag.String("pkg", "", "package pattern (relative to dir)")
 	symxDir := flag.String("symx", "/verif/symx", "directory of the verifsymx package")
 	flag.Var(&ovs, "ov", "overlay mapping virtual=real (repeatable)")
 	flag.Var(&harnesses, "harness", "harness function name[:k=v;k=v] (repeatable)")
 	flag.Var(&cfgs, "cfg", "k=v config applied to all harnesses")
+	flag.Var(&redirs, "redirect", "qualified.Function=HarnessFunction: run the harness function instead (repeatable)")
 	workers := flag.Int("workers", 16, "parallel workers")
 	maxPaths := flag.Int("max-paths", 20000, "path limit per harness")
 	steps := flag.Int("steps", 2000000, "SSA instruction limit per path")
@@ -91,6 +92,11 @@ func main() {
 	eng.solverLog = *slog
 	eng.dumpQueries = *dump
 	eng.hashAxioms = *hashAx
+	for _, r := range redirs {
+		if p := strings.SplitN(r, "=", 2); len(p) == 2 {
+			eng.redirects[p[0]] = p[1]
+		}
+	}
 	if *fixw != "" {
 		b, err := os.ReadFile(*fixw)
 		if err != nil {
